@@ -34,6 +34,18 @@ NEEDS = {
  "C18-m2": ("ctx.concatenate silently drops a repeated operand", "the same compiled circuit passed twice to concatenate"),
  "C19-m1": ("non-learnable tensors become non-persistent buffers", "a tensor with learnable=False and a non-constant initialiser, save then load into a fresh instance"),
  "C19-m2": ("parameter graphs memoise their output in eval mode", ".eval(), an evaluation, then load_state_dict on the fresh instance"),
+ "C12-m1": ("build_circuit no longer falls back to sum_weight_factory for n-ary sum layers", "a region graph with a region partitioned in more than one way (num_repetitions > 1, random binary tree / quad graph) and only sum_weight_factory given"),
+ "C12-m2": ("softmax activation skipped when the Parameterization uses Dirichlet initialisation", "Parameterization(activation='softmax', initialization='dirichlet') and a parameter update (or reset to other values) after compilation"),
+ "C14-m1": ("polynomial differential reuses the exponents of the first step", "a polynomial parameter differentiated with order >= 2 and degree >= 2"),
+ "C14-m2": ("softmax / log-softmax nodes lose their axis when the parameter graph is folded", "fold=True, two or more foldable softmax nodes with dim != -1"),
+ "C15-m1": ("sum-layer sampling flattens (arity, units) unit-major", "sampling from a sum layer of arity >= 2 with more than one input unit"),
+ "C15-m2": ("CP-T layer sampling combines only the first two inputs", "optimize=True and a Hadamard product of arity >= 3 feeding an arity-1 sum (fused into a CP-T layer), then sampling"),
+ "C16-m1": ("structured-decomposability flag keyed by parent region node instead of scope", "a region graph with two region nodes of equal scope that are split differently (num_repetitions > 1)"),
+ "C16-m2": ("explicit factories: an input region that is also the root ignores num_classes", "a one-region region graph, sum_factory / prod_factory given, num_classes != num_sum_units"),
+ "C17-m1": ("folded per-slice initialisers held in a one-shot iterator", "fold=True, a fold group of >= 2 tensors and a second reset_parameters() after the parameters changed"),
+ "C17-m2": ("learnable flag dropped from the fold key of tensor parameters", "fold=True, a learnable and a non-learnable tensor of equal shape in the same fold group"),
+ "C20-m1": ("hmm(): emission layer of the last chain variable takes input_factories[-1]", "per-variable input_layer_kwargs (a list) and an ordering whose last element is not num_variables-1"),
+ "C20-m2": ("LogicalCircuit.smooth(): literal table keyed with the opposite polarity flag", "enforce_smoothness and a variable added by smoothing that occurs in the formula with one polarity only"),
 }
 DETECT = {}   # filled from check logs
 
